@@ -25,10 +25,13 @@ const (
 	vschedPath = "github.com/ory/keto/verif/vsched"
 	vsyncPath  = "github.com/ory/keto/verif/vsched/vsync"
 	verrPath   = "github.com/ory/keto/verif/vsched/verrgroup"
+	vsfPath    = "github.com/ory/keto/verif/vsched/vsingleflight"
+	vsemPath   = "github.com/ory/keto/verif/vsched/vsemaphore"
 )
 
 var profiles = map[string][]string{
-	"check":  {"internal/check", "internal/check/checkgroup", "internal/x/graph", "internal/expand"},
+	// (an entry that names a file instruments that file only)
+	"check":  {"internal/check", "internal/check/checkgroup", "internal/x/graph", "internal/expand", "internal/relationtuple/definitions.go"},
 	"config": {"internal/driver/config"},
 }
 
@@ -389,7 +392,7 @@ func process(fset *token.FileSet, path string) (out []byte, counts map[string]in
 		case "golang.org/x/sync/errgroup":
 			errgUsed = true
 		case "golang.org/x/sync/semaphore", "golang.org/x/sync/singleflight":
-			errs = append(errs, path+": import "+p+" is not modelled by vsched")
+			errgUsed = true // (a modelled library is imported: the file must be rewritten)
 		}
 	}
 	// header: build constraints must survive; other comments are dropped (synthesised
@@ -448,6 +451,18 @@ func process(fset *token.FileSet, path string) (out []byte, counts map[string]in
 				im.Name = id("errgroup")
 			}
 			r.counts["import-errgroup"]++
+		case "golang.org/x/sync/singleflight":
+			im.Path.Value = strconv.Quote(vsfPath)
+			if im.Name == nil {
+				im.Name = id("singleflight")
+			}
+			r.counts["import-singleflight"]++
+		case "golang.org/x/sync/semaphore":
+			im.Path.Value = strconv.Quote(vsemPath)
+			if im.Name == nil {
+				im.Name = id("semaphore")
+			}
+			r.counts["import-semaphore"]++
 		}
 	}
 	if r.used {
@@ -492,14 +507,24 @@ func main() {
 	total := map[string]int{}
 	var errs []string
 	for _, d := range dirs {
-		ents, err := os.ReadDir(filepath.Join(*repo, d))
-		if err != nil {
-			errs = append(errs, err.Error())
-			continue
+		var names []string
+		if strings.HasSuffix(d, ".go") {
+			names = []string{filepath.Base(d)}
+			d = filepath.Dir(d)
+		} else {
+			ents, err := os.ReadDir(filepath.Join(*repo, d))
+			if err != nil {
+				errs = append(errs, err.Error())
+				continue
+			}
+			for _, e := range ents {
+				if !e.IsDir() {
+					names = append(names, e.Name())
+				}
+			}
 		}
-		for _, e := range ents {
-			n := e.Name()
-			if e.IsDir() || !strings.HasSuffix(n, ".go") || strings.HasSuffix(n, "_test.go") {
+		for _, n := range names {
+			if !strings.HasSuffix(n, ".go") || strings.HasSuffix(n, "_test.go") {
 				continue
 			}
 			src := filepath.Join(*repo, d, n)
